@@ -149,6 +149,13 @@ func Main(args []string) int {
 		maxTail = 4
 	}
 	hosts := []string{"h", strings.Repeat("h", 8), strings.Repeat("h", 9), strings.Repeat("h", 40)}
+	// header lengths around the maximum record length (64 in this run): the message limit shrinks, then the header is refused
+	for hl := 14; hl <= 24; hl++ {
+		hosts = append(hosts, strings.Repeat("H", hl))
+	}
+	if o.Tier == "thorough" {
+		maxTail = 5
+	}
 	var tails []string
 	var gen func(prefix string, n int)
 	gen = func(prefix string, n int) {
@@ -171,6 +178,27 @@ func Main(args []string) int {
 				run(0, h+strings.Repeat("a", fill)+tail)
 			}
 		}
+	}
+	// (d) the skeleton of the header: every string of up to L symbols over {< > 1 3 space - a}, followed by a well-formed
+	// remainder and by filler (classification well-formed / malformed, and the fields when well-formed)
+	skel := []string{"<", ">", "1", "3", " ", "-", "a"}
+	L := 5
+	if o.Tier == "thorough" {
+		L = 7
+	}
+	level := []string{""}
+	for l := 1; l <= L; l++ {
+		var next []string
+		for _, p := range level {
+			for _, c := range skel {
+				next = append(next, p+c)
+			}
+		}
+		for _, h := range next {
+			run(0, h+" "+ts+" host app 123 msgid - tail")
+			run(2, h+strings.Repeat(" y", 16))
+		}
+		level = next
 	}
 	o.Close()
 	return 0
